@@ -228,6 +228,16 @@ pub fn run(ctx: &Ctx, rep: &mut Report) {
             }
         }
     }
+    {
+        let mut items = Vec::new();
+        for n in 2..=7usize {
+            for k in 0..6usize {
+                let w: Vec<u32> = (0..n).map(|i| al8[(i * (k + 1) + k) % 8]).collect();
+                items.push(Case::w32(&format!("{}.sort", AnyHand::size_name(n)), &w));
+            }
+        }
+        super::history2(rep, judge, &items);
+    }
     rep.rule = "distinct ordered word arrays; non-trivial = arrays that are not already non-increasing (the sort has to move something)".into();
     rep.bound = if ctx.tier.thorough() {
         "order clause complete; sorting: every weak ordering of <= 7 slots over 8 words, all tuples over 12 words (n <= 6), all card tuples (n <= 4); other word values are covered only through their order pattern".into()
